@@ -16,19 +16,19 @@ theorem ifcreate_existing_is_error (E : Engine) (d : Defects) (cx : Ctx) (t : Na
 
 /-- A `c` dependency (declared by `redo-ifcreate`, or a higher-priority .do candidate that was
 absent) fires exactly when the path exists: not before. -/
-theorem created_dep_fires_iff (chk : World → List Nat → Nat → DR × World × List Nat) (hc : Bool) (f : Nat)
-    (d : Dep) (ds : List Dep) (w : World) (cache must : List Nat) (hm : d.modeM = false) :
+theorem created_dep_fires_iff (chk : World → List Nat → Nat → Rec → DR × World × List Nat) (hc : Bool) (f : Nat)
+    (d : Dep) (snap : Rec) (ds : List (Dep × Rec)) (w : World) (cache must : List Nat) (hm : d.modeM = false) :
     (existsF w d.source = true →
-      (goDeps chk hc f (d :: ds) w cache must).1 = some (if hc then .need [f] else .dirty)) ∧
+      (goDeps chk hc f ((d, snap) :: ds) w cache must).1 = some (if hc then .need [f] else .dirty)) ∧
     (existsF w d.source = false →
-      goDeps chk hc f (d :: ds) w cache must = goDeps chk hc f ds w cache must) := by
+      goDeps chk hc f ((d, snap) :: ds) w cache must = goDeps chk hc f ds w cache must) := by
   constructor <;> intro h <;> simp [goDeps, hm, h]
 
 /-- The `//ALWAYS` pseudo file is dirty for every dependent whose own mark is older than the
 current run: a target that declared `redo-always` is rebuilt by every run that needs it. -/
 theorem always_is_newer (ood : Bool) (R n : Nat) (w : World) (c : List Nat) (mx : Nat) (seen : List Nat)
     (hs : alwaysId ∉ seen) (hf : (w.recs alwaysId).failed = none) (hmx : mx < R) :
-    isDirty ood R (n + 1) w c alwaysId mx seen = (.dirty, w, c) := by
+    isDirty ood R (n + 1) w c alwaysId mx seen none = (.dirty, w, c) := by
   have h1 : (getRec w R alwaysId).failed = none := by simp [getRec, hf]
   have h2 : ∃ ch, (getRec w R alwaysId).changed = some ch ∧ ch > mx := by
     unfold getRec
@@ -37,7 +37,7 @@ theorem always_is_newer (ood : Bool) (R n : Nat) (w : World) (c : List Nat) (mx 
     | none => exact ⟨R, rfl, hmx⟩
     | some c0 => exact ⟨max R c0, rfl, by omega⟩
   obtain ⟨ch, h2, h3⟩ := h2
-  simp (config := { zeta := true, zetaHave := true }) only [isDirty, hs, h1, h2, h3, if_true, if_false,
+  simp (config := { zeta := true, zetaHave := true }) only [isDirty, Option.getD_none, hs, h1, h2, h3, if_true, if_false,
     Option.isSome_none, Bool.false_eq_true]
 
 /-- … but within the run in which it was rebuilt, the always-target is not rebuilt again for
@@ -49,7 +49,7 @@ theorem always_not_newer_within_run (R n : Nat) (w : World) (c : List Nat) (seen
     (hch : ∀ c0, (w.recs alwaysId).changed = some c0 → c0 ≤ R)
     (hst : (w.recs alwaysId).stamp = some .missing) (hfs : w.fs alwaysId = none)
     (hng : (w.recs alwaysId).isGenerated = false) (hck : isCheckedR (w.recs alwaysId) R = false) :
-    (isDirty false R (n + 1) w c alwaysId R seen).1 = .clean := by
+    (isDirty false R (n + 1) w c alwaysId R seen none).1 = .clean := by
   have h1 : (getRec w R alwaysId).failed = none := by simp [getRec, hf]
   have h2 : (getRec w R alwaysId).changed = some R := by
     unfold getRec
@@ -60,8 +60,8 @@ theorem always_not_newer_within_run (R n : Nat) (w : World) (c : List Nat) (seen
   have h3 : (getRec w R alwaysId).stamp = some .missing := by simp [getRec, hst]
   have h4 : isCheckedR (getRec w R alwaysId) R = false := by simpa [getRec, isCheckedR] using hck
   have h5 : (getRec w R alwaysId).isGenerated = false := by simp [getRec, hng]
-  simp (config := { zeta := true, zetaHave := true }) only [isDirty, hs, h1, h2, h3, h4, if_true, if_false,
+  simp (config := { zeta := true, zetaHave := true }) only [isDirty, Option.getD_none, hs, h1, h2, h3, h4, if_true, if_false,
     Option.isSome_none, Bool.false_eq_true, Nat.lt_irrefl, gt_iff_lt, readStamp, hfs, ne_eq, not_true_eq_false,
-    depsOf, h5, Bool.not_false, Bool.or_true, goDeps, List.isEmpty_nil]
+    depsWithRecs, depsOf, h5, Bool.not_false, Bool.or_true, List.map_nil, goDeps, List.isEmpty_nil]
 
 end C14
